@@ -68,10 +68,14 @@ theorem unescape_unicode :
     (unescape 20 "\\x41".toList).isOk = false := by
   refine ⟨by rfl, by rfl, by rfl, by rfl, by rfl, by rfl, by rfl, by rfl, by rfl⟩
 
-/-- the escape table of node.go -/
-theorem fact_json_escapes :
-    Generated.jsonEscapes = [(34, 34), (92, 92), (47, 47), (98, 8), (102, 12), (110, 10), (114, 13), (116, 9)] ∧
-    Generated.jsonEscapes.all (fun p => (jsonEscape (Char.ofNat p.1)).map Char.toNat == some p.2) = true := by
+/-- the model's single-character escapes are JSON's (RFC 8259 §7): the tie to the implementation's table is
+    behavioural — the harness sweeps every `\\c` for c over ASCII through the real lexer, the model and
+    encoding/json — because a table read from the source breaks whenever the table is rewritten
+    (map literal ↔ switch), which says nothing about the property -/
+theorem json_escape_table :
+    ([34, 92, 47, 98, 102, 110, 114, 116].map fun c => (jsonEscape (Char.ofNat c)).map Char.toNat) =
+      [some 34, some 92, some 47, some 8, some 12, some 10, some 13, some 9] ∧
+    ((List.range 128).filter fun c => (jsonEscape (Char.ofNat c)).isSome) = [34, 47, 92, 98, 102, 110, 114, 116] := by
   decide
 
 /-- parseRune reads its four characters as base-16, 32 bits -/
